@@ -1,5 +1,5 @@
 """C14 -- optimized field classes compute the same values as the reference field classes."""
-from .. import machine
+from .. import fieldbig, machine
 from . import c08
 
 
@@ -11,3 +11,5 @@ def run(ctx):
     machine.run_machine(ctx, families=("ref", "opt"))
     # (C) the complete operation tables of both families against the same operators of Field.tla
     c08.field_tables(ctx, lite=True)
+    # full size: reference and optimized built-in classes on the same operands against the same BigNat model
+    fieldbig.big_tables(ctx)
